@@ -34,6 +34,8 @@ def handle (line : String) : String :=
   | "procargs" :: rest => " ".intercalate ((procArgs (readPieces rest)).map encArg)
   | "parse" :: rest => handleParse rest
   | "parsev" :: rest => handleParse rest true
+  | "parseg" :: rest => handleParseGate rest
+  | "parsegv" :: rest => handleParseGate rest true
   | "parsep" :: rest => handleParseProg rest
   | "tok" :: rest => handleTok rest
   | "macro" :: rest => handleMacro rest
